@@ -592,7 +592,7 @@ func TestLogs(t *testing.T) {
 		Property: "C13", Check: "otlp_logs_grpc_http",
 		Rule: "batches of 0..20 records from logtest.RecordFactory over 1..4 resources and 1..4 scopes (nil/empty/sibling scopes), severities 0..24 and out of range, severity text, event name, body and attributes over all eight log.Value kinds nested to depth 3, trace context set / partly set / unset with flags, unset/pre-epoch/2262 timestamps, DroppedAttributes incl. > MaxUint32 and negative; exported by otlploggrpc and otlploghttp (gzip on/off) to loopback collectors; " +
 			"non-trivial = the records use >= 2 resources or >= 2 distinct scopes, or carry >= 1 boundary value (time <= epoch or unset or in the last second of int64 nanos, severity outside 0..24, count < 0 or >= MaxUint32-1)",
-		Quick: 1500, Thorough: 15000,
+		Quick: 2000, Thorough: 30000,
 		Gen: genLogCase, Run: runLogs,
 		Known: map[string]func(LogCase, vk.Violation) bool{
 			"log_empty_value_as_invalid_string": knownEmptyAsInvalid,
